@@ -62,6 +62,7 @@ MOD = {
     "Fast": ["fast_nack_eq", "fast_fir_eq", "fast_sli_eq", "fast_compound_eq", "fast_compoundParse_eq", "fast_sdesParse_eq",
              "fast_packetParse_eq", "fast_kindParse_eq"],
     "CompoundE2E": ["member_refines", "member_accepted", "compound_end_to_end"],
+    "NestedE2E": ["node_image", "tree_refines", "tree_leaves_accepted", "nested_end_to_end"],
     "FastWrite": ["fast_writerVia_eq", "fast_sdesWriter_eq", "fast_chunkWriter_eq", "fast_chunkRun_eq"],
     "EndToEnd": ["fb_nack_end_to_end", "fb_fir_end_to_end", "fb_sli_end_to_end", "fb_rpsi_end_to_end", "fb_pli_end_to_end",
                  "fci_err_truthful", "parseFci_err_truthful", "packet_err_truthful", "packet_pad_transparent",
@@ -111,7 +112,7 @@ OBLIGATIONS = {
     "C12": ["packet_parse_eq", "packet_parse_short", "packet_unknown_data", "packet_data", "tryAs_same",
             "tryAs_mismatch", "tryAs_unknown", "packet_kind", "fast_packetParse_eq", "fast_kindParse_eq"],
     "C13": MOD["Padding"] + ["packet_pad_transparent"],
-    "C14": ["compound_refines", "compound_size_sum", "compound_accept_iff", "compound_singleton"] + MOD["Compose"] + MOD["CompoundE2E"],
+    "C14": ["compound_refines", "compound_size_sum", "compound_accept_iff", "compound_singleton"] + MOD["Compose"] + MOD["CompoundE2E"] + MOD["NestedE2E"],
     "C15": ["parseFci_eq", "nack_entries_eq", "fir_entries_eq", "sli_entries_eq", "rpsi_decode_eq", "rpsi_parse_ok_iff",
             "pli_parse_ok_iff", "fir_parse_ok_iff", "sli_parse_ok_iff", "nack_parse_ok", "fci_parsers_no_panic",
             "fast_nack_eq", "fast_fir_eq", "fast_sli_eq"],
